@@ -498,7 +498,7 @@ func ruleR22_6(c *Check) {
 		v, isC := w.constInt(call.Args[1])
 		r.Check(isC && v == 0, nx, "Next follows the base level", call, "Iterator.Next does not follow level 0")
 	}
-	r.Exists(len(nx.Sites(selCall(gn))) == 1, nx, "Next uses getNext", nil, "expected one getNext call")
+	r.Exists(len(nx.Sites(selCall(gn))) >= 1, nx, "Next uses getNext", nil, "expected one getNext call")
 	// Get: SameKey guard before the value is read
 	get := w.F("skl.Skiplist.Get")
 	sk := w.Func("y.SameKey")
